@@ -6,6 +6,7 @@ import BV.C01.Lemmas
 import BV.C01.Loops
 import BV.C01.ChainUnique
 import BV.C01.ChainComplete
+import BV.C01.HeightLemmas
 import BV.Generated.C01
 import BV.C09.Model
 namespace BV.C01
@@ -458,6 +459,29 @@ theorem go_fee_loop_is_rule (fees : List Int) (h : ∀ f ∈ fees, 0 ≤ f ∧ f
 
 example : Loops.goOutputs [2100000000000000] 0 = true ∧ Loops.goOutputs [2100000000000000, 1] 0 = false ∧
     Loops.goOutputs [-1] 0 = false := by decide
+
+/-! ### BIP34: `ExtractCoinbaseHeight` / `CheckSerializedHeight` on the script bytes -/
+
+/-- For every height a block can have (0 ≤ h < 2^31) the canonical push of the height — what `AddInt64` emits —
+    followed by anything is read back as that height. -/
+theorem bip34_height_roundtrip (h : Nat) (hh : h < 2147483648) (rest : List Nat) :
+    extractHeight (pushInt (h : Int) ++ rest) = .ok (h : Int) :=
+  Height.extractHeight_canonical h hh rest
+
+/-- `CheckSerializedHeight` accepts a canonical coinbase script exactly for its own height. -/
+theorem bip34_check_exact (h : Nat) (hh : h < 2147483648) (rest : List Nat) (want : Int) :
+    checkSerializedHeight (pushInt (h : Int) ++ rest) want = decide ((h : Int) = want) :=
+  Height.checkSerializedHeight_canonical h hh rest want
+
+/-- Whatever height is extracted, the script starts with the canonical (minimal) push of that height: a
+    non-minimal or truncated encoding is never accepted. -/
+theorem bip34_extract_sound (s : List Nat) (h : Int) (hs : extractHeight s = .ok h) :
+    isPrefixOf (pushInt h) s = true :=
+  Height.extractHeight_sound s h hs
+
+example : checkSerializedHeight [3, 0x40, 0x0d, 0x03, 0x51] 200000 = true ∧
+    checkSerializedHeight [2, 0x09, 0x00] 9 = false ∧ checkSerializedHeight [4, 0x09, 0x00] 9 = false ∧
+    checkSerializedHeight [0x60] 16 = true ∧ checkSerializedHeight [1, 0x10] 16 = false := by decide
 
 /-! ### non-vacuity -/
 
